@@ -33,6 +33,12 @@ def clause_property(clause: str) -> str:
     return "C02" if clause.startswith(STRUCTURAL) else "C01"
 
 
+def owns(prop: str, clause: str) -> bool:
+    # a graph that violates a structural clause cannot be executed faithfully either: C01 owns every clause,
+    # C02 the structural ones
+    return prop == "C01" or clause_property(clause) == prop
+
+
 # ------------------------------------------------------------------------------------------------
 # abstract statement tree (def/use sets) from source text
 # ------------------------------------------------------------------------------------------------
@@ -371,7 +377,7 @@ def stage(ctx, sources: list[str], owner: str, extra_traces=()):
         idx, clause = verdicts[t["id"]]
         if idx == 0:
             continue
-        if clause_property(clause) != owner:
+        if not owns(owner, clause):
             other += 1
             continue
         ev = t["events"][idx - 1] if 0 < idx <= len(t["events"]) else {"ev": "End", "outputs": (t.get("end") or {}).get("outputs")}
@@ -408,7 +414,7 @@ def _call_model(fn, feeds, attrs, eager_outs):
     g = helper.make_graph(
         [node], "caller",
         [helper.make_tensor_value_info(i, helper.np_dtype_to_tensor_dtype(feeds[i].dtype), list(feeds[i].shape)) for i in fp.input],
-        [helper.make_tensor_value_info(f"o{i}", helper.np_dtype_to_tensor_dtype(eager_outs[i].dtype), None) for i in range(len(fp.output))],
+        [helper.make_tensor_value_info(f"o{i}", helper.np_dtype_to_tensor_dtype(eager_outs[i].dtype), [None] * eager_outs[i].ndim) for i in range(len(fp.output))],
     )
     ops = {(o.domain, o.version) for o in fp.opset_import} | {(fp.domain, 1)}
     funcs = [fp] + [f for f in mp_funcs if not (f.name == fp.name and f.domain == fp.domain)]
@@ -469,6 +475,12 @@ def _extra_worker(arg):
         if eager is not None:
             try:
                 cm = _call_model(f, feeds, attrs, eager)
+                try:
+                    import onnx
+
+                    onnx.checker.check_model(cm)
+                except Exception as ex:
+                    raise RuntimeError(f"CHECKER: {type(ex).__name__}: {str(ex)[:250]}") from ex
                 graphs["call"] = [np.asarray(x) for x in core.ort_session(cm).run(None, feeds)]
             except Exception as ex:
                 graphs["call"] = f"{type(ex).__name__}: {str(ex)[:300]}"
@@ -517,7 +529,7 @@ def run_extra(ctx):
                 continue
             for mode in ("model", "call"):
                 if mode + "_err" in rec:
-                    if mode == "call":
+                    if mode == "call" and "CHECKER:" not in rec["call_err"]:
                         ctx.add("extra_call_mode_not_runnable")   # onnxruntime cannot always type-check function bodies with subgraphs
                         continue
                     ctx.report({"program": name, "src": src, "run": rec}, f"extra program {name}: eager returns {rec['eager']} but the {mode} fails on onnxruntime: {rec[mode + '_err']} on {rec['input']}\n{src}")
